@@ -151,3 +151,11 @@ Arguments SScal {R L}. Arguments SPerm {R L}. Arguments SProd {R L}. Arguments S
 Arguments SBDiag {R L}. Arguments mkbased {R L}. Arguments mksdom {R V L}.
 Arguments slogdet {R RR V L}. Arguments slogdet_check {R L}. Arguments logdet {R RR V L}. Arguments ev {R V L}.
 Arguments to_op {R L}. Arguments dim {R L}.
+Arguments vone {R V L}. Arguments vmul {R V L}. Arguments vinv {R V L}. Arguments vconj {R V L}. Arguments vof {R V L}.
+Arguments vabs {R V L}. Arguments lzero {R V L}. Arguments ladd {R V L}. Arguments lscale {R V L}. Arguments llog {R V L}.
+Arguments lexp {R V L}. Arguments labs {R V L}. Arguments lsgn {R V L}. Arguments lre {R V L}. Arguments lph {R V L}.
+Arguments vpow {R V L}. Arguments phase {R V L}. Arguments diag_rule {R V L}. Arguments tri_rule {R V L}.
+Arguments ident_rule {R V L}. Arguments scal_rule {R V L}. Arguments perm_rule {R RR V L}. Arguments comb {R V L}.
+Arguments scale_res {R V L}. Arguments kron_rule {R V L}. Arguments bdiag_rule {R V L}. Arguments chol_rule {R V L}.
+Arguments lu_rule {R RR V L}. Arguments kry_rule {R V L}. Arguments base_rule {R RR V L}. Arguments base_check {R L}.
+Arguments b_psd {R L}. Arguments b_lu {R L}. Arguments b_ch {R L}. Arguments b_kt {R L}.
